@@ -185,6 +185,18 @@ func formatInt64(format string, num int64) string {
 	return fmt.Sprintf(format, num)
 }
 
+// scalarKeyOnly: formats whose keys are text cannot write a key that is a map or a sequence (a yaml complex key)
+func scalarKeyOnly(key *CandidateNode, format string) error {
+	if key.Kind != ScalarNode && key.Kind != AliasNode {
+		kind := "sequence"
+		if key.Kind == MappingNode {
+			kind = "map"
+		}
+		return fmt.Errorf("cannot encode a key that is a %v to %v, only scalar keys are supported", kind, format)
+	}
+	return nil
+}
+
 func parseInt(numberString string) (int, error) {
 	_, parsed, err := parseInt64(numberString)
 
